@@ -815,7 +815,13 @@ impl Iterator for ClosestBucketsIter {
                 } else {
                     let i = BucketIndex(0);
                     self.state = ClosestBucketsIterState::ZoomOut(i);
-                    Some(i)
+                    // Bucket 0 has already been yielded if bit 0 of the distance is set (it was
+                    // part of the zoom-in) or if the iteration started there (zero distance).
+                    if self.distance.0.bit(0) || self.distance.0.is_zero() {
+                        self.next()
+                    } else {
+                        Some(i)
+                    }
                 }
             }
             ClosestBucketsIterState::ZoomOut(i) => {
